@@ -19,7 +19,7 @@ import (
 // C11: authorization response parameters arrive intact and cannot inject markup. The simulated part is the
 // three-party pipeline OP -> user agent -> client; the parameter values are seeded generation (said plainly).
 
-var hostileStrings = []string{"plain", "a+/=b c", "a&b=c", "100%", "%41%zz", "#frag?x=y", "q?uestion", `"quoted"`, `'single'`, "<script>alert(1)</script>", `"><img src=x onerror=alert(1)>`,
+var hostileStrings = []string{"plain", "a+/=b c", "return to dashboard tab2", "QUJD REVG SElK TE1O UFFS VFVW", "ab cd+ef/gh ij kl mn op q=", "a&b=c", "100%", "%41%zz", "#frag?x=y", "q?uestion", `"quoted"`, `'single'`, "<script>alert(1)</script>", `"><img src=x onerror=alert(1)>`,
 	"üñíçødé ✓ 日本", "tab\tnew\nline", " leading and trailing ", "back\\slash", "semi;colon,comma", "&amp;&lt;", "{{.Params}}", "`backtick`", "a=b&state=other", "‮\u0000x"}
 
 func genString(ch *kernel.Chooser) string {
